@@ -236,6 +236,10 @@ Definition ss_step (cap : nat) (s : st) (o : op) : res (st * out) :=
   | EraseRange a b => Ok (upd s (set_erase_range (cur s) a b))
   | Clear => Ok (upd s ([], OUnit))
   | Swap => Ok ({| cur := oth s; oth := cur s |}, OUnit)
+  (* static_set(first, last) with forward iterators: no precondition, insert(first, last) *)
+  | AssignIter ks => do l <- ss_insert_range cap [] ks; Ok (upd s (l, OUnit))
+  (* defaulted copy assignment: the backing vector is copied *)
+  | CopyFrom => Ok (upd s (oth s, OUnit))
   | InsertHint _ _ | AssignSorted _ | EraseIf _ | Extract | Replace _ => Ok (s, OUnit)  (* no such member *)
   end.
 
@@ -257,6 +261,12 @@ Definition fs_step (cap : nat) (s : st) (o : op) : res (st * out) :=
   | Clear => Ok (upd s ([], OUnit))
   | Swap => Ok ({| cur := oth s; oth := cur s |}, OUnit)
   | Extract => Ok (upd s ([], OElems (cur s)))
+  (* flat_set(first, last, comp): _container{}, insert(first, last); a precondition that fires inside
+     the constructor of the temporary leaves s as it was *)
+  | AssignIter ks =>
+      do r <- fs_insert_range cap [] ks;
+      Ok (if is_contract (snd r) then (s, OContract) else upd s r)
+  | CopyFrom => Ok (upd s (oth s, OUnit))
   end.
 
 Definition step (k : kind) : nat -> st -> op -> res (st * out) :=
